@@ -128,7 +128,7 @@ func (x *runner) flush() {
 		for _, in := range j.ins {
 			x.t.Event("In", rt.M{"msg": in.enc()})
 		}
-		end := rt.M{"sinks": o.Sinks, "stable": o.Stable, "fork": j.pipe.IsFork(), "stopErr": o.StopErr, "nerr": len(o.Errs)}
+		end := rt.M{"sinks": o.Sinks, "stable": o.Stable, "fork": j.pipe.IsFork(), "stopErr": o.StopErr, "nerr": len(o.Errs), "errs": o.ByNode}
 		if !o.Stable {
 			end["late"] = o.Late
 			x.unstable++
@@ -285,7 +285,7 @@ func Run(r *rt.Run) error {
 				}
 			}
 		}
-		for i := 0; i < 600; i++ {
+		for i := 0; i < 400; i++ {
 			a, b, c := vs[r.Rand.Intn(len(vs))], vs[r.Rand.Intn(len(vs))], vs[r.Rand.Intn(len(vs))]
 			if r.Rand.Intn(2) == 0 {
 				si := sIn[r.Rand.Intn(len(sIn))]
